@@ -436,6 +436,11 @@ class Engine:
                 return self.promoted(fr, u["promoted"])
             return ("constref", u["canon"], tuple(u["args"]), u.get("name"))
         if "tyconst" in o:
+            # a const generic parameter: its value when the enclosing (inlined) function was instantiated with a literal
+            nm = str(o["tyconst"]).split("/")[0]
+            v = (fr.get("subst") or {}).get(nm)
+            if isinstance(v, str) and re.match(r"^\d+(_?[iu](8|16|32|64|128|size))?$", v):
+                return C(int(re.match(r"^\d+", v).group(0)), ty if ty in INT_BITS else "usize")
             return ("tyconst", o["tyconst"], ty)
         return unknown("const " + ty)
 
@@ -475,11 +480,19 @@ class Engine:
             ck = rv["ck"]
             if ck == "PointerCoercion(Unsize)" and a[0] == "ref":
                 n = _array_len(rv["from"])
+                if n is None and a[1][0] != "S":
+                    v0 = self.read(st, a[1])
+                    if v0[0] == "agg" and v0[1] == "array":
+                        n = len(v0[5])          # `[x; N]` with a const parameter N instantiated by the inlined caller
                 if n is not None and a[1][0] != "S":
                     return ("ref", ("S", a[1], C(0, "usize"), C(n, "usize")))
                 return a
             if ck == "PointerCoercion(Unsize)" and a[0] == "pref":
                 return a
+            if ck == "PointerCoercion(Unsize)" and a[0] == "param":
+                n = _array_len(rv["from"])
+                if n is not None:
+                    return ("ref", ("S", ("P", a), C(0, "usize"), C(n, "usize")))
             return mk_cast(ck, a, rv["from"], rv["ty"])
         if k == "bin":
             a = self.operand(st, fr, rv["a"])
@@ -516,6 +529,11 @@ class Engine:
         if k == "repeat":
             v = self.operand(st, fr, rv["op"])
             n = rv["n"]
+            if not isinstance(n, int):
+                # `[x; N]`: N a const parameter with a literal value in this instantiation
+                sv = (fr.get("subst") or {}).get(str(n).split("/")[0])
+                if isinstance(sv, str) and re.match(r"^\d+", sv):
+                    n = int(re.match(r"^\d+", sv).group(0))
             if isinstance(n, int) and n <= 64:
                 return ("agg", "array", None, None, None, tuple([v] * n))
             return ("repeat", v, n)
@@ -775,7 +793,10 @@ class Engine:
             cands = []
             if res and res.get("kind") == "item":
                 cands.append((res["canon"], res["args"]))
-            cands.append((callee["canon"], callee["args"]))
+            if not callee.get("trait") or callee.get("syn_inline"):
+                # a trait method that could not be resolved (generic receiver) must stay a call: the trait's default body is not
+                # what an implementor necessarily runs
+                cands.append((callee["canon"], callee["args"]))
             targs = None
             for cn, ta in cands:
                 f2 = self.facts.fn_by_canon(cn)
@@ -805,8 +826,15 @@ class Engine:
                 st.store[("L", fid, i + 1)] = a
             nsub = {}
             gen = getattr(target_fn, "generics", []) or []
+            if targs is not None and len(gen) != len(targs):
+                g2 = [g for g in gen if not g.startswith("'")]
+                t2 = [a for a in targs if not a.startswith("'")]
+                if len(g2) == len(t2):
+                    gen, targs = g2, t2
             if targs is not None and len(gen) == len(targs):
                 nsub = dict(zip(gen, targs))
+            if not nsub and "{closure" in target_fn.canon:
+                nsub = dict(fr.get("subst") or {})       # a closure shares the generic parameters of the function that wrote it
             st.frames.append({"fn": target_fn, "fid": fid, "bb": 0, "dest": dest, "ret_to": t["target"],
                               "cev": ev, "subst": nsub})
             return None
@@ -1746,6 +1774,9 @@ def slice_parts(eng, st, t, self_ty=None):
         # a reference to a container that derefs to a slice (Box<[T]>, Vec<T>): its elements, opaque length
         return ("P", t), C(0, "usize"), ("len", t)
     if t[0] in ("param", "call", "okval", "someval", "getf", "init", "havoc", "cast", "pay"):
+        n = _array_len(t[2]) if t[0] == "param" else None
+        if n is not None:
+            return ("P", t), C(0, "usize"), C(n, "usize")     # a reference to an array of known length
         return ("P", t), C(0, "usize"), ("len", t)
     return None
 
